@@ -3,9 +3,12 @@
 // against the scheduler shim (flavour "shim": SpinLockMutex's atomics, std::mutex, ... are scheduling
 // points of engine/vsched).  Every execution prints the observable event log validated by
 // spec/MetricsSyncConcTrace.tla:
-//   Cfg(temps)  AddCall(m, attrs, v)  AddRet(m)  ColCall(c, r, final)  ColRet(c, r, pts)  End
+//   Cfg(temps)  AddCall(m, attrs, v)  AddRet(m)  ColCall(c, r, final)  ColRet(c, r, pts)  DownCall(r)  DownRet(r)  End
 //
-//   c06_conc explore <random|pct> <n> <seed> <temps e.g. dc> <nrec> <nadd> <ncol>
+//   c06_conc explore <random|pct> <n> <seed> <temps e.g. dc> <nrec> <nadd> <ncol> [<nshut>=0]
+//       nshut = 1 (and >= 2 readers): one more thread shuts ONE reader (drawn from the seed) down on its own
+//       - MetricReader::Shutdown, the provider stays alive - racing the recorders and the collectors; that
+//       reader's own collector thread simply goes on (the SDK lets a shut-down reader collect).
 //       nrec recorder threads x nadd Adds each (each through its own handle obtained for the same
 //       instrument when <handles> = 2 ... see `dup`), one collector thread per reader x ncol
 //       collections, then, all threads joined, one final collection per reader.
@@ -98,6 +101,7 @@ int main(int argc, char **argv)
   uint64_t seed     = strtoull(argv[4], nullptr, 10);
   std::string temps = argv[5];
   int nrec = atoi(argv[6]), nadd = atoi(argv[7]), ncol = atoi(argv[8]);
+  int nshut = argc > 9 ? atoi(argv[9]) : 0;
   json jtemps = json::array();
   for (char c : temps)
     jtemps.push_back(c == 'd' ? "delta" : "cum");
@@ -180,6 +184,15 @@ int main(int argc, char **argv)
           for (int k = 0; k < ncol; ++k)
             collect(r, false);
         });
+      if (nshut > 0 && temps.size() >= 2)
+      {
+        int q = 1 + rng.below((int)temps.size());
+        th.emplace_back([&, q]() {
+          emit({{"e", "DownCall"}, {"r", q}});
+          readers[(size_t)q - 1]->Shutdown();
+          emit({{"e", "DownRet"}, {"r", q}});
+        });
+      }
       for (auto &t : th)
         t.join();
       for (int r = 1; r <= (int)temps.size(); ++r)
